@@ -4,10 +4,10 @@ from . import common as C
 from . import sem as S
 
 # property -> (families quick, families thorough)
-ALLF = ["F1", "F1b", "F2", "F3", "F4", "F4b", "F5", "F6", "F7", "F8", "F8m", "F9", "F10", "F11", "F13"]
+ALLF = ["F1", "F1b", "F2", "F2x", "F3", "F4", "F4b", "F5", "F6", "F7", "F8", "F8m", "F9", "F10", "F11", "F13"]
 FAMILIES = {
     "C01": (["F1", "F1b", "F2", "F3", "F4", "F4b", "F5", "F6", "F7", "F8m", "F9", "F10", "F11", "F14", "R"], ALLF + ["F14", "F20", "F8p", "FC1", "FC2", "R"]),
-    "C02": (["F1b", "F2", "F3", "F4", "F4b", "F5", "F6", "F8", "F9", "F13", "F14"], ALLF + ["F14", "R"]),
+    "C02": (["F1b", "F2", "F2x", "F3", "F4", "F4b", "F5", "F6", "F8", "F9", "F13", "F14"], ALLF + ["F14", "R"]),
     "C03": (["F1", "F1b", "F2", "F3", "F7", "F8", "F8m", "F9", "F11", "R"], ALLF + ["FC2", "R"]),
     "C04": (["F8", "F8m", "F8p", "F5", "F6"], ["F8", "F8m", "F8p", "F1", "F1b", "F5", "F6", "F7", "F9", "F14", "FC2", "R"]),
     "C09": (["F1", "F5", "F4", "F8", "F20"], ["F1", "F2", "F4", "F5", "F8", "F8m", "F8p", "F9", "F14", "F20", "R"]),
